@@ -117,7 +117,17 @@ type Parser struct {
 
 	// Are we inside a function?
 	function bool
+
+	// depth is the number of expressions we are currently inside.
+	depth int
 }
+
+// MaxDepth is the deepest nesting of expressions (brackets, blocks,
+// prefix-operators, ..) the parser accepts.  The parser, the compiler and
+// the printing of the AST all recurse once per level, so without a limit
+// a script such as a megabyte of "(" would exhaust the (golang) stack, which
+// cannot be recovered from and terminates the host application.
+const MaxDepth = 1000
 
 // New returns a new parser.
 //
@@ -313,6 +323,18 @@ func (p *Parser) parseExpressionStatement() *ast.ExpressionStatement {
 
 // parse an expression.
 func (p *Parser) parseExpression(precedence int) ast.Expression {
+
+	// Refuse to nest without limit.
+	p.depth++
+	defer func() { p.depth-- }()
+	if p.depth > MaxDepth {
+		if p.depth == MaxDepth+1 {
+			msg := fmt.Sprintf("expressions are nested more than %d levels deep around %s", MaxDepth, p.curToken.Position())
+			p.errors = append(p.errors, msg)
+		}
+		return nil
+	}
+
 	postfix := p.postfixParseFns[p.curToken.Type]
 	if postfix != nil {
 		return (postfix())
